@@ -118,8 +118,7 @@ def main():
         "not_applicable": na,
         "notes": "All checks: exit 0 = held on everything explored (KNOWN-FINDING lines possible), exit 1 = VIOLATION lines, exit 2 = machinery error (never a verdict). known_findings.json is never written at run time.",
     }
-    if not na:
-        del m["not_applicable"]
+    # (an empty list is kept on purpose: every listed property is claimed)
     json.dump(m, open(os.path.join(ROOT, "MANIFEST.json"), "w"), indent=1)
     print("MANIFEST.json:", len(checks), "checks,", len(na), "not_applicable")
 
